@@ -24,6 +24,10 @@ T('C02', 'exhaustive bounded enumeration (deviation-bounded product of 12 config
   'Bounded exhaustive model checking of the real emission and direct-image models: every configuration (layers 1-5, 6 temperature profiles, 5 opacity magnitudes incl. mixed-per-wavenumber, 1-6 quadrature points, contribution sets, cross-section and k-table (degenerate and spread) opacity modes through the real KTableCache/pickle path, stars, planets, distances) within the deviation bound plus the full core product is executed and compared with a reference written from the documented integral (own Planck function, closed-form Gauss nodes, explicit cumulative transmittances); the exp(-10) licence is computed exactly per case; isothermal identity, blackbody bounds, partial_model per-angle intensities and the Rp^2/d^2 law are checked on every case.',
   'numba/numpy trusted; density/altitude/mixing profiles read from the model (C10/C11); direct-image numeric prefactor accepted as 1 or 1/2; small-scope hypothesis')
 
+T('C20', 'exhaustive bounded enumeration of paired real model runs (cross-sections vs k-tables loaded through KTableCache) over weights x spread x model family x magnitude, against the weight-averaged-exponential reference',
+  'Bounded exhaustive model checking of the real correlated-k path: for every configuration (8 weight vectors with 1-4 g-points incl. a zero-weight point, degenerate and spread k-distributions, transmission / emission / direct image, 4 opacity magnitudes, layer counts, temperature profiles, contribution orders, both path methods) the k-table run is compared with the reference T = sum_g w_g exp(-tau_g) (slant geometry and emission integral of mc/ref/rt.py), with the [0,1] range and the Jensen bound, and in the degenerate case with the cross-section run of the same numbers.',
+  'numba/numpy trusted; profiles read from the model; k-tables are pickle files written by the harness and discovered by the real cache; small-scope hypothesis')
+
 
 def main():
     props = [json.loads(l) for l in open(os.path.join(VERIF, 'properties.jsonl'))]
